@@ -34,6 +34,7 @@ Clauses ==
        (IF Want("C02") THEN C!C02(Obs) \cup (IF DupLines THEN {"C02.dup"} ELSE {}) ELSE {}) \cup
        (IF Want("C03") THEN C!C03(Obs) \cup C!C03Local(Obs) ELSE {}) \cup
        (IF Want("C05") THEN C!C05Closed(Obs) ELSE {}) \cup
+       (IF Want("C12") THEN C!C12Below(Obs) ELSE {}) \cup
        (IF Want("C10") /\ Tr.hasTracked THEN C!C10Inst(Tracked) ELSE {})
 \* drift: disagreement with the operational model that no property clause forbids (reported, never a verdict)
 Drift == IF Tr.status = "ok" /\ Tr.parse = "ok" /\ Want("drift") /\ ~C!OpTie
